@@ -99,7 +99,10 @@ def VIEWS(F, R):
 
 
 def EMPLACE(F, R):
-    e6_generated.generated_rules(F, R, {"init"})
+    """How values get into a buffer: generated initialisers, the container emplacers, FlexVec's writers, the provided in-place methods.
+    Attached to every property that quantifies over values / histories built through the safe API (a value whose constructor and view
+    disagree breaks each of them); not to the byte-image properties C01, C02, C06, C09, C10, C16, C19."""
+    e6_generated.generated_rules(F, R, {"init", "default"})
     e7_containers.filling_emplacers(F, R)
     e7_containers.empty_emplacers(F, R)
     e7_containers.flex_writers(F, R)
@@ -159,6 +162,7 @@ def c03(F, R):
     e7_containers.flex_validator(F, R)
     e7_containers.flex_reader(F, R)
     e7_containers.array_validator(F, R)
+    EMPLACE(F, R)
     FOUNDATION(F, R)
 
 
@@ -171,6 +175,7 @@ def c04(F, R):
     e6_generated.generated_rules(F, R, {"ptr"})
     e7_containers.flex_writers(F, R)  # item positions inside a FlexVec (strides, sealed extents) are part of the computed layout
     e9_witness.witness_rules(F, R)
+    EMPLACE(F, R)
     FOUNDATION(F, R)
 
 
@@ -182,6 +187,7 @@ def c05(F, R):
     e6_generated.generated_rules(F, R, {"size", "ptr"})
     e7_containers.flex_size(F, R)
     e7_containers.flex_writers(F, R)
+    EMPLACE(F, R)
     FOUNDATION(F, R)
 
 
@@ -252,6 +258,7 @@ def c07(F, R):
     e3_io.ctor_rules(F, R, "blocking")
     framing_rules(F, R)
     e9_witness.witness_rules(F, R)
+    EMPLACE(F, R)
     FOUNDATION(F, R)
 
 
@@ -277,6 +284,7 @@ def c08(F, R):
     e3_io.ctor_rules(F, R, "async")
     framing_rules(F, R)
     e9_witness.witness_rules(F, R)
+    EMPLACE(F, R)
     FOUNDATION(F, R)
 
 
@@ -325,6 +333,7 @@ def c11(F, R):
     e2_guards.guard_rules(F, R, lambda n: n.startswith("__root_validate__K_Flat") or n.startswith("__root_size__K_Flat"), "vecstring", 20)
     no_shadowing(F, R)
     container_cmp_rules(F, R)
+    EMPLACE(F, R)
     FOUNDATION(F, R)
 
 
@@ -392,6 +401,7 @@ def c12(F, R):
     e6_generated.generated_rules(F, R, {"init"})  # in-place edits of items: a refused re-initialisation of an item keeps the item (tag after gate)
     e2_guards.guard_rules(F, R, FLEX_ROOTS, "flexapi", 50)
     e9_witness.witness_rules(F, R)
+    EMPLACE(F, R)
     FOUNDATION(F, R)
 
 
@@ -403,6 +413,7 @@ def c13(F, R):
     e8_portable.scalar_rules(F, R)  # `offset not representable` relies on L::from_usize being the native checked conversion for portable L
     no_shadowing(F, R)
     container_cmp_rules(F, R)
+    EMPLACE(F, R)
     FOUNDATION(F, R)
 
 
@@ -419,6 +430,7 @@ def c14(F, R):
     e9_witness.witness_rules(F, R)
     e7_containers.filling_emplacers(F, R)   # a refused tail emplacer must not leave a stale length under a new tag (R2.refusal-leaves-valid)
     composite_limit(F, R)                    # ... the remaining one-pass hole (nested enum tails) is a recorded finding here as well
+    EMPLACE(F, R)
     FOUNDATION(F, R)
 
 
@@ -437,6 +449,7 @@ def c15(F, R):
     e5_formulas.trait_method_rules(F, R)
     e6_generated.generated_rules(F, R, {"ptr"})
     e9_witness.witness_rules(F, R)
+    EMPLACE(F, R)
     FOUNDATION(F, R)
 
 
@@ -458,6 +471,7 @@ def c17(F, R):
     e1_layout.layout_rules(F, R)
     e9_witness.witness_rules(F, R)
     e1_layout.impl_bound_rules(F, R)
+    EMPLACE(F, R)
     FOUNDATION(F, R)
 
 
@@ -472,6 +486,7 @@ def c18(F, R):
     e5_formulas.trait_method_rules(F, R)
     VALIDATION(F, R)  # "still a valid value": what the validators demand is what the emplacers must leave behind
     composite_limit(F, R)
+    EMPLACE(F, R)
     FOUNDATION(F, R)
 
 
@@ -521,6 +536,7 @@ def c20(F, R):
     SIZES(F, R)       # "has the minimal size() for that state"
     e7_containers.filling_emplacers(F, R)
     e7_containers.flex_writers(F, R)
+    EMPLACE(F, R)
     FOUNDATION(F, R)
 
 
